@@ -1,99 +1,113 @@
 import MiniVecProof.Proofs.MemOps
 /-
-  C14 — raw-pointer round trip (PARTIAL; KNOWN FINDING for requested over-alignment).
+  C14 — raw-pointer round trip.
 
-  `from_raw_part(s)` walks back from element 0 by `next_aligned(size_of::<Header>(), align_of::<T>())`
-  (regenerated `from_raw_part_pre`), while element 0 lives at `next_aligned(size_of::<Header>(), A)`
-  for the alignment `A` recorded in the block (regenerated `data`). The round trip lands on the
-  block base exactly when the two agree:
-  * proved: they agree for every element type whenever the block has its NATURAL alignment
-    `max(align_of::<T>(), 8)` (every vector not created by `with_alignment(_, A)` with a larger `A`),
-    so the rebuilt handle is the original one and nothing else is touched;
-  * proved: they DISAGREE for a requested alignment above the natural one (the negation, with
-    witness) — the genuine defect recorded in known_findings.json, replayed on the implementation
-    by the corpus case `D11`.
+  `from_raw_part(s)` reads the block's alignment from the word right in front of element 0 and walks
+  back by `next_aligned(size_of::<Header>(), alignment)`; element 0 lives at
+  `next_aligned(size_of::<Header>(), A)` for the alignment `A` recorded in the block (regenerated
+  `data`).  `grow` writes that word before it installs a block (regenerated `grow`: `GM.writeMirror`
+  checks value and place; `GM.setBuf` refuses a block without it — `grow_spec` shows every
+  successful `grow` passes both), so the two distances agree for EVERY alignment, requested or
+  natural: the rebuilt handle is the original one and nothing else is touched.
+  (Before the repair recorded as D11 the back-walk used `align_of::<T>()` and missed the header of
+  over-aligned buffers; `C14_offsets_disagreed_overaligned` keeps the arithmetic witness.)
 -/
 namespace MV.Props
 open MV MV.Gen MV.GM VM
 
-theorem isPow2_cases_le8 (a : Nat) (h : isPow2 a = true) (hle : a ≤ 8) : a = 1 ∨ a = 2 ∨ a = 4 ∨ a = 8 := by
-  unfold isPow2 at h
-  simp only [List.any_eq_true, beq_iff_eq] at h
-  obtain ⟨k, _, hk⟩ := h
-  subst hk
-  have : k ≤ 3 := by
-    by_cases hk3 : k ≤ 3
-    · exact hk3
-    · have : 2 ^ 4 ≤ 2 ^ k := Nat.pow_le_pow_right (by omega) (by omega)
-      omega
-  have hk' : k = 0 ∨ k = 1 ∨ k = 2 ∨ k = 3 := by omega
-  rcases hk' with rfl | rfl | rfl | rfl <;> simp
+/-- the regenerated prefixes do nothing but the null check -/
+theorem C14_from_raw_part_pre (E : Env) (p : DPtr) (g : GS) (hp : p.isNull = false) :
+    (∃ env, from_raw_part_pre E p g = (.ok (.cont env), g)) ∧
+    (∀ l c, ∃ env, from_raw_parts_pre E p l c g = (.ok (.cont env), g)) := by
+  constructor
+  · exact ⟨⟨p, hdrSize, p⟩, by simp [from_raw_part_pre, GM.debugAssert, hp]⟩
+  · intro l c; exact ⟨⟨p, l, c, hdrSize, p⟩, by simp [from_raw_parts_pre, GM.debugAssert, hp]⟩
 
-/-- back offset = forward offset for the natural alignment, for every power-of-two `align_of::<T>()` -/
-theorem C14_offsets_agree_natural (a : Nat) (h : isPow2 a = true) :
-    alignUp hdrSize a = dataOff (max a hdrAlign) := by
-  unfold dataOff hdrAlign
-  by_cases hle : a ≤ 8
-  · rcases isPow2_cases_le8 a h hle with rfl | rfl | rfl | rfl <;> decide
-  · have : max a 8 = a := by omega
-    rw [this]
-
-/-- the regenerated back-walk computes exactly that offset -/
-theorem C14_from_raw_part_offset (E : Env) (p : DPtr) (g : GS) (hp : p.isNull = false)
-    (h : isPow2 E.c.elemAlign = true) (hsmall : alignUp hdrSize E.c.elemAlign < W) :
-    from_raw_part_pre E p g =
-      (.ok (.cont ⟨p, hdrSize, dataOff (max E.c.elemAlign hdrAlign), p⟩), g) := by
-  have hpos := isPow2_pos _ h
-  have hW : hdrSize < W := by decide
-  have hsmall' : dataOff (max E.c.elemAlign hdrAlign) < W := by rw [← C14_offsets_agree_natural _ h]; exact hsmall
-  unfold from_raw_part_pre
-  simp [GM.debugAssert, hp, next_aligned_eq _ _ _ hpos hW, hsmall', C14_offsets_agree_natural _ h]
-
-/-- model level: on a well-formed vector with storage whose block has the natural alignment, the
-    round trip rebuilds the same handle and reports its length and capacity; state untouched -/
-theorem C14_roundtrip_natural (X : Ctx) (s : St) (es : List Elem) (h : Abs X s.v es)
-    (hd : s.v.isDefault = false) (hnat : s.v.align = max X.c.elemAlign hdrAlign)
-    (hpow : isPow2 X.c.elemAlign = true) :
+/-- model level: on EVERY well-formed vector with storage — whatever alignment its block was
+    requested with — the round trip rebuilds the same handle and reports its length and capacity;
+    state untouched -/
+theorem C14_roundtrip (X : Ctx) (s : St) (es : List Elem) (h : Abs X s.v es) (hd : s.v.isDefault = false) :
     Vec.raw_roundtrip X (do
         let f ← from_raw_part_pre X.env (.at 0)
         match f with
-        | .cont env => pure env.v_aligned
+        | .cont _ => pure ()
+        | .ret _ => GM.throw .ub) s = (.ok (some (es.length, s.v.cap)), s) ∧
+    Vec.raw_roundtrip X (do
+        let f ← from_raw_parts_pre X.env (.at 0) 0 0
+        match f with
+        | .cont _ => pure ()
         | .ret _ => GM.throw .ub) s = (.ok (some (es.length, s.v.cap)), s) := by
   obtain ⟨b, hb, hl, hs, hlc, hel, hinit⟩ := h.alloc hd
   have hL : (hsOf s.v s.sys.allocIdx).L = es.length := h.len_eq
   have hC : (hsOf s.v s.sys.allocIdx).C = s.v.cap := by simp [GS.C, hsOf, hd]
+  have hal : b.lay.align = s.v.align := (make_layout_honest _ _ _ _ hl).2.1
   have h1 : VM.lift X (as_mut_ptr X.env) s = (.ok (.at (dataOff s.v.align)), s) :=
     lift_read X _ s _ (as_mut_ptr_run X.env _ hd b.lay s.v.cap hl)
   have h2 : VM.lift X (len X.env) s = (.ok es.length, s) := lift_read X _ s _ (by rw [len_run, hL])
   have h3 : VM.lift X (capacity X.env) s = (.ok s.v.cap, s) := lift_read X _ s _ (by rw [capacity_run, hC])
-  have hsmall : alignUp hdrSize X.c.elemAlign < W := by
-    rw [C14_offsets_agree_natural _ hpow, ← hnat]
-    obtain ⟨_, _, hsz⟩ := make_layout_ok _ _ _ _ hl
-    have : dataOff s.v.align ≤ totalSize X.env.c s.v.cap s.v.align := by unfold totalSize; omega
-    have h2 : ISIZE_MAX + 1 < W := by decide
-    omega
-  have h4 : VM.lift X (do
+  obtain ⟨m1, _, _⟩ := mirror_ok X.env s.v.cap s.v.align b.lay hl
+  have h4 : Vec.readMirror s = (.ok s.v.align, s) := by
+    simp [Vec.readMirror, VM.bind_run, VM.getV_run, hb, hal]
+  have h5 : VM.lift X (GM.liftE (next_aligned X.env hdrSize s.v.align)) s = (.ok (dataOff s.v.align), s) :=
+    lift_read X _ s _ (by simp [GM.liftE, m1, dataOff])
+  constructor
+  · have hp : VM.lift X (do
         let f ← from_raw_part_pre X.env (.at 0)
         match f with
-        | .cont env => pure env.v_aligned
-        | .ret _ => GM.throw .ub) s = (.ok (dataOff s.v.align), s) := by
-    apply lift_read
-    simp only [GM.bind_run]
-    rw [C14_from_raw_part_offset X.env (.at 0) _ rfl hpow hsmall, hnat]
-    rfl
-  unfold Vec.raw_roundtrip
-  simp only [VM.bind_run, h1, h2, h3, h4, if_true, VM.pure_run]
+        | .cont _ => pure ()
+        | .ret _ => GM.throw .ub : GM Unit) s = (.ok (), s) :=
+      lift_read X _ s _ (by simp [from_raw_part_pre, GM.debugAssert, DPtr.isNull])
+    unfold Vec.raw_roundtrip
+    simp only [VM.bind_run, h1, h2, h3, hp, h4, h5, if_true, VM.pure_run]
+  · have hp : VM.lift X (do
+        let f ← from_raw_parts_pre X.env (.at 0) 0 0
+        match f with
+        | .cont _ => pure ()
+        | .ret _ => GM.throw .ub : GM Unit) s = (.ok (), s) :=
+      lift_read X _ s _ (by simp [from_raw_parts_pre, GM.debugAssert, DPtr.isNull])
+    unfold Vec.raw_roundtrip
+    simp only [VM.bind_run, h1, h2, h3, hp, h4, h5, if_true, VM.pure_run]
 
-/-- KNOWN FINDING (D11), as a theorem about the regenerated offsets: with `align_of::<T>() = 4`
-    and a block requested with alignment 64 the back-walk (24) misses the data offset (64). -/
-theorem C14_offsets_disagree_overaligned :
+/-- every successful `grow` wrote the word: the regenerated `grow` passes the value/place check of
+    `GM.writeMirror` and the "was written" check of `GM.setBuf` on every path that installs a block
+    (otherwise `grow_spec`'s equation, which has no such failure, could not hold) -/
+theorem C14_grow_writes_the_word (E : Env) (s : GS) (c a : Nat) (hf : s.fresh = none) (hlen : s.L ≤ c) :
+    (grow E c a s).1 = .error .ub → False := by
+  rw [grow_spec E s c a hf, if_neg (by omega)]
+  by_cases h2 : c = s.C ∧ a = s.A E
+  · rw [if_pos h2]; simp
+  · rw [if_neg h2]
+    cases hLy : make_layout E c a with
+    | error p =>
+      simp only
+      intro hp
+      have := make_layout_error_unwinding _ _ _ _ hLy
+      simp at hp; subst hp; simp [Panic.unwinding] at this
+    | ok L =>
+      simp only
+      cases s.isDefault with
+      | true => simp only [if_true]; split <;> simp
+      | false =>
+        simp only [Bool.false_eq_true, if_false]
+        cases hL0 : make_layout E s.cap a with
+        | error p =>
+          simp only
+          intro hp
+          have := make_layout_error_unwinding _ _ _ _ hL0
+          simp at hp; subst hp; simp [Panic.unwinding] at this
+        | ok L0 => simp only; split <;> simp
+
+/-- what went wrong before the repair (D11), as arithmetic: with `align_of::<T>() = 4` and a block
+    requested with alignment 64, walking back by `next_aligned(24, align_of::<T>())` (24) misses the
+    data offset (64) -/
+theorem C14_offsets_disagreed_overaligned :
     ∃ elemAlign A, isPow2 elemAlign = true ∧ isPow2 A = true ∧ max elemAlign hdrAlign ≤ A ∧
       alignUp hdrSize elemAlign ≠ dataOff A :=
   ⟨4, 64, by decide, by decide, by decide, by decide⟩
 
 end MV.Props
 
-#print axioms MV.Props.C14_offsets_agree_natural
-#print axioms MV.Props.C14_from_raw_part_offset
-#print axioms MV.Props.C14_roundtrip_natural
-#print axioms MV.Props.C14_offsets_disagree_overaligned
+#print axioms MV.Props.C14_from_raw_part_pre
+#print axioms MV.Props.C14_roundtrip
+#print axioms MV.Props.C14_grow_writes_the_word
+#print axioms MV.Props.C14_offsets_disagreed_overaligned
